@@ -352,6 +352,13 @@ fn update_readiness_after_write(
     status: SocketResult,
     readiness: &mut Readiness,
 ) -> bool {
+    // A failed write is final, unlike a read that ends (`Closed` is then a
+    // plain end of stream and the write half may still have frames to flush):
+    // the peer will not receive anything any more. Record it as a socket
+    // error, or the pending write looks like one that only waits for room.
+    if matches!(status, SocketResult::Closed | SocketResult::Error) {
+        readiness.event.insert(Ready::ERROR);
+    }
     update_readiness(size, status, readiness, Ready::WRITABLE)
 }
 pub struct Context<L: ListenerHandler + L7ListenerHandler> {
@@ -639,6 +646,13 @@ impl<Front: SocketHandler, L: ListenerHandler + L7ListenerHandler> Mux<Front, L>
 
 impl<Front: SocketHandler + std::fmt::Debug, L: ListenerHandler + L7ListenerHandler> Mux<Front, L> {
     fn delay_close_for_frontend_flush(&mut self, reason: &'static str) -> bool {
+        // A socket error means the peer is gone for good: nothing that is
+        // queued for it can be delivered any more, and waiting for the flush
+        // would keep the session and its backend connections until the zombie
+        // checker runs.
+        if self.frontend.readiness().event.is_error() {
+            return false;
+        }
         let _ = self.frontend.initiate_close_notify();
         // LIFECYCLE §9 invariant 16: consult per-stream back-buffers in
         // addition to the connection-level pending-write predicate so
@@ -1158,6 +1172,15 @@ impl<Front: SocketHandler + std::fmt::Debug, L: ListenerHandler + L7ListenerHand
                             }
                         }
                         MuxResult::Upgrade => return SessionResult::Upgrade,
+                    }
+                    if self.frontend.readiness().event.is_error() {
+                        // the write failed: the peer is gone, nothing is left to wait for
+                        debug!(
+                            "{} Mux close on frontend write error: {:?}",
+                            log_context!(self),
+                            self.frontend
+                        );
+                        return SessionResult::Close;
                     }
                     // Cross-readiness: frontend wrote → wake parked backends.
                     // If any backend resumes, invalidate the stale readiness
